@@ -941,7 +941,12 @@ pub fn gen_data(rng: &mut Rng, partial_names: &[String], holes: bool) -> Dv {
         if holes && rng.chance(1, 8) {
             continue;
         }
-        o.push((n.to_string(), value_dv(rng, 0)));
+        // `a` and `b` (never assigned) serve as range bounds and limits: small integers half the time
+        if IMMUTABLE.contains(&n) && rng.chance(1, 2) {
+            o.push((n.to_string(), Dv::Int(rng.range(0, 3))));
+        } else {
+            o.push((n.to_string(), value_dv(rng, 0)));
+        }
     }
     o.push(("arr".into(), Dv::Array((0..1 + rng.below(4)).map(|_| scalar_dv(rng)).collect())));
     o.push(("obj".into(), Dv::Object(vec![("k".into(), scalar_dv(rng))])));
@@ -1037,6 +1042,13 @@ pub fn gen_partials(rng: &mut Rng, base: &GenCfg, corrupt_per_8: u32, absent_per
             names[j] = "x".to_string();
         }
     }
+    // names the stores must match verbatim: a directory-like name with `/` or with `\`
+    if n > 0 && rng.chance(1, 5) {
+        let i = rng.below(n);
+        if !names[i].starts_with('x') {
+            names[i] = if rng.chance(1, 2) { "d/p".to_string() } else { "d\\p".to_string() };
+        }
+    }
     let mut absent = vec![];
     if rng.chance(absent_per_8, 8) {
         absent.push("gone".to_string());
@@ -1099,4 +1111,28 @@ pub fn inject_abort(nodes: &mut Vec<Node>, rng: &mut Rng) -> bool {
     // prefer nested bodies: index 0 is the top level
     let mut target = if total > 1 && rng.chance(4, 5) { 1 + rng.below(total - 1) } else { 0 };
     walk(nodes, &mut target, rng)
+}
+
+/// Like `inject_abort`, but aimed at the body of a `capture` block (after at least one node that
+/// writes into the capture buffer), if the template has one. Returns false otherwise.
+pub fn inject_abort_in_capture(nodes: &mut Vec<Node>, rng: &mut Rng) -> bool {
+    fn walk(nodes: &mut Vec<Node>, rng: &mut Rng) -> bool {
+        for n in nodes.iter_mut() {
+            if let Node::Capture { body, .. } = n {
+                if !body.is_empty() && rng.chance(2, 3) {
+                    let kind = if rng.chance(1, 2) { AbortKind::DataDependent } else { AbortKind::DivZero };
+                    let at = 1 + rng.below(body.len());
+                    body.insert(at, Node::Abort(kind));
+                    return true;
+                }
+            }
+            for b in bodies_mut(n) {
+                if walk(b, rng) {
+                    return true;
+                }
+            }
+        }
+        false
+    }
+    walk(nodes, rng)
 }
